@@ -11,8 +11,8 @@ From Mv Require Import Common.Bytes Model.Bundle.
 Definition bcase := (bool * input * outcome)%type.
 
 (* short aliases printed by the Go harness *)
-Definition In_ (b : bool) (e l : slot) (os arch : string) : input :=
-  {| in_bin := b; exe_slot := e; lib_slot := l; goos := os; goarch := arch |}.
+Definition In_ (b : bool) (e l : slot) (os arch : string) (pre : option string) : input :=
+  {| in_bin := b; exe_slot := e; lib_slot := l; goos := os; goarch := arch; out_pre := pre |}.
 Definition SA := SAbsent.
 Definition SE := SOpenErr.
 Definition SD := SNotFile.
